@@ -11,9 +11,21 @@ THEOREMS = {
             "Backend.C06_pinned_order_violates", "Backend.C06_removed_logger_sink_not_flushed_unrepaired", "Backend.C06_removed_logger_sink_flushed",
             "Obligations.C06_extracted"],
     "C09": ["Backend.C09_reads_committed", "Backend.C09_drain_publishes", "Backend.C09_blocked_call_resumes", "Backend.C09_obs_ret1",
-            "Backend.C09_call_after_drain_accepted", "Backend.C09_drain_rule_needed", "Obligations.C09_backend_extracted"],
+            "Backend.C09_call_after_drain_accepted", "Backend.C09_empty_queue_retry_granted", "Backend.C09_empty_queue_call_accepted",
+            "Backend.C09_drain_rule_needed", "Obligations.C09_backend_extracted"],
 }
 MODULES = {"C05": ["QuillModel.Props.C05"], "C06": ["QuillModel.Props.C06"], "C09": ["QuillModel.Props.C09Backend"]}
 OBLIG = ["QuillModel.Obligations.BackendB"]
 OBLIG_BY_PROP = {"C05": ["QuillModel.Obligations.BackendB_C05", "QuillModel.Obligations.BackendB_Common"], "C06": ["QuillModel.Obligations.BackendB_C06", "QuillModel.Obligations.BackendB_C05", "QuillModel.Obligations.BackendB_Common"],
                  "C09": ["QuillModel.Obligations.BackendB_C09", "QuillModel.Obligations.BackendB_Common"]}
+# w2_prog: progress under concurrent frontend activity (Props/C06Progress.lean)
+THEOREMS["C06"] += ["Backend.C06_poll_pops_unless_batch_guard", "Backend.C06_flush_not_overtaken",
+                    "Backend.C06_flush_log_returns_concurrent", "Backend.C06_batch_guard_starves"]
+MODULES["C06"] += ["QuillModel.Props.C06Progress"]
+THEOREMS["C06"] += ["Backend.C06_nothing_older_arrives", "Backend.C06_flush_log_returns_concurrent_explicit"]
+# w2_prog: C09 under concurrent frontend activity (Props/C09Progress.lean)
+THEOREMS["C09"] += ["Backend.C09_retry_granted_once_queue_read", "Backend.C09_pass_reads_every_ripe_queue"]
+MODULES["C09"] += ["QuillModel.Props.C09Progress"]
+THEOREMS["C09"] += ["Backend.C09_blocked_queue_drains", "Backend.C09_blocked_call_resumes_concurrent"]
+THEOREMS["C06"] += ["Backend.C06_flush_log_returns_concurrent_retry"]
+MODULES["C06"] += ["QuillModel.Props.C09Progress"]
